@@ -428,11 +428,11 @@ class BoundedStream:
                 'This stream is closed; no further operations on it are permitted.'
             )
 
-        if self.eof:
-            return
-
         if self._iteration_started:
             raise OperationNotAllowed('This stream is already being iterated over.')
+
+        if self.eof:
+            return
 
         self._iteration_started = True
 
@@ -451,29 +451,34 @@ class BoundedStream:
             try:
                 next_chunk = event['body']
             except KeyError:
-                pass
-            else:
-                # NOTE(kgriffs): No need to yield empty body chunks.
-                if next_chunk:
-                    next_chunk_len = len(next_chunk)
+                next_chunk = b''
 
-                    if next_chunk_len <= self._bytes_remaining:
-                        self._bytes_remaining -= next_chunk_len
-                        self._pos += next_chunk_len
-                    else:
-                        # NOTE(kgriffs): We received more data than expected,
-                        #   so truncate to the expected length.
-                        next_chunk = next_chunk[: self._bytes_remaining]
-                        self._pos += self._bytes_remaining
-                        self._bytes_remaining = 0
+            if next_chunk:
+                next_chunk_len = len(next_chunk)
 
-                    yield next_chunk
+                if next_chunk_len <= self._bytes_remaining:
+                    self._bytes_remaining -= next_chunk_len
+                    self._pos += next_chunk_len
+                else:
+                    # NOTE(kgriffs): We received more data than expected,
+                    #   so truncate to the expected length.
+                    next_chunk = next_chunk[: self._bytes_remaining]
+                    self._pos += self._bytes_remaining
+                    self._bytes_remaining = 0
 
             # NOTE(kgriffs): Per the ASGI spec, more_body is optional
             #   and should be considered False if not present.
             # NOTE(kgriffs): This also handles the case of receiving
             #   the event: {'type': 'http.disconnect'}
-            # PERF(kgriffs): event.get() is more elegant, but uses a
-            #   few more CPU cycles.
+            # NOTE: decided before yielding, so that a consumer that stops
+            #   iterating on the final chunk leaves the stream at EOF.
             if not ('more_body' in event and event['more_body']):
                 self._bytes_remaining = 0
+
+            # NOTE(kgriffs): No need to yield empty body chunks.
+            if next_chunk:
+                yield next_chunk
+
+        # NOTE: the iteration ran to completion; iterating over the (now
+        #   exhausted) stream again simply yields nothing.
+        self._iteration_started = False
